@@ -14,4 +14,5 @@ func extras(fset *token.FileSet, repo string, b *strings.Builder) {
 	for _, f := range extraFns {
 		f(fset, repo, b)
 	}
+	extrasC17(fset, repo, b)
 }
